@@ -815,7 +815,8 @@ func init() {
 		},
 		Assumptions: []string{"interpreted goroutines switch only at visible operations: sync.Mutex/RWMutex calls (incl. the per-shard index locks), sync/atomic, sync.Pool, WaitGroup, file-system calls, goroutine start/exit; sequentially consistent memory between switch points",
 			"RWMutex: writer preference (a pending writer blocks new readers)", "schedule violations are not replayed natively (no schedule hooks in the repository): the replay directory holds the schedule as a decision vector for the engine",
-			"linearizability oracle: exists a total order respecting real time in which every Get returns the register's content; found flags concrete per path, values symbolic"},
+			"linearizability oracle: exists a total order respecting real time in which every Get returns the register's content; found flags concrete per path, values symbolic",
+			"switch-point interleaving is only a sound model of Go for data-race-free executions, so every job also runs the happens-before (vector clock) race check of C09 over each explored schedule; a race among Put/Get/Delete is reported as a C08 violation because it voids the linearizability argument"},
 		Bounds: map[string]string{
 			"quick":    "2 goroutines x 1-2 operations from {Put(symbolic value), Delete, Get} on 1-2 keys, <= 2-3 preemptions, optional concurrent Merge (<= 1 preemption), SyncStrategy No / Always / Threshold (symbolic BytesPerSync 1..200); history checked for linearizability; at quiescence live dump == dump after Close+Open",
 			"thorough": "3 goroutines x 1, 2 x 2 with 3 preemptions, Merge with 2 preemptions",
